@@ -338,7 +338,15 @@ def _flag_vectors(tree: Any, mid: str, budget: int) -> dict[str, Any]:
                         out["bad"].append({"cls": cls, "flag": "<raises>", "pair": _exc_key(e), "vec": [f for f, v in vec.items() if v],
                                            "node": node.fullname})
                         continue
-                    on = "+".join(f for f, v in vec.items() if v) or "-"
+                    ons = [f for f, v in vec.items() if v]
+                    if len(ons) <= 1:
+                        on = ons[0] if ons else "-"
+                    elif len(ons) == len(vec):
+                        on = "all"
+                    elif len(ons) == len(vec) - 1:
+                        on = "all-but-" + next(f for f, v in vec.items() if not v)
+                    else:
+                        on = "random-subset"
                     out["cells"][f"flagvec:{cls}|{on}"] = out["cells"].get(f"flagvec:{cls}|{on}", 0) + 1
                     for f, v in vec.items():
                         gj, gb = getattr(bj, f, W.UNSET), getattr(bb, f, W.UNSET)
